@@ -191,6 +191,12 @@ fn pct(s: &str) -> String {
     pct_encode_plain(s)
 }
 
+/// A token the server itself issued goes back either percent-encoded (what URL libraries do) or exactly as it
+/// was received (what dropshot's own client and most hand-written ones do): both must work.
+fn issued_token_in_query(r: &mut StdRng, t: &str) -> String {
+    if r.gen_bool(0.5) { pct(t) } else { t.to_string() }
+}
+
 fn main() {
     let args: Vec<String> = std::env::args().collect();
     let thorough = args[1] == "thorough";
@@ -257,7 +263,7 @@ fn main() {
                         match &token {
                             None => target.push_str(&format!("order={}", order)),
                             // the token alone selects the page; a contradictory order is added on purpose
-                            Some(t) => target.push_str(&format!("page_token={}&order={}", pct(t),
+                            Some(t) => target.push_str(&format!("page_token={}&order={}", issued_token_in_query(&mut r, t),
                                 if order == "asc" { "desc" } else { "asc" })),
                         }
                         if lim != 0 {
@@ -347,7 +353,9 @@ fn main() {
                     _ => Some(["order=sideways", "min=abc", "min=-1", "order=asc&min=1.5"][r.gen_range(0..4)].to_string()),
                 };
                 let mut parts: Vec<String> = vec![];
-                if let Some(t) = &token { parts.push(format!("page_token={}", pct(t))); }
+                if let Some(t) = &token {
+                    parts.push(format!("page_token={}", if tc == "issued" { issued_token_in_query(&mut r, t) } else { pct(t) }));
+                }
                 if let Some(l) = &limit_str { parts.push(format!("limit={}", pct(l))); }
                 if let Some(o) = &other { parts.push(o.clone()); }
                 // random order of the query parameters
@@ -398,7 +406,7 @@ fn main() {
                 }
                 Ok(p) => {
                     let tok = p.next_page.unwrap();
-                    let back = serde_urlencoded::from_str::<PaginationParams<Scan, Sel>>(&format!("page_token={}", pct(&tok)));
+                    let back = serde_urlencoded::from_str::<PaginationParams<Scan, Sel>>(&format!("page_token={}", issued_token_in_query(&mut r, &tok)));
                     let roundtrip = matches!(&back, Ok(pp) if matches!(&pp.page, WhichPage::Next(s) if *s == sel));
                     emit("issue", json!({"len": tok.len(), "enc": encoded_len, "out": "token", "roundtrip": roundtrip}));
                     issued_tokens.push((tok, sel));
